@@ -1536,3 +1536,51 @@ mod tests {
         world.send(E);
     }
 }
+
+// Verification hooks. Compiled only with `--cfg evenio_verif`.
+#[cfg(evenio_verif)]
+impl HandlerList {
+    /// `(before, after, handler ids in list order)`.
+    pub(crate) fn verif_snapshot(&self) -> (u32, u32, Vec<HandlerId>) {
+        (
+            self.before,
+            self.after,
+            self.entries
+                .iter()
+                .map(|p| unsafe { p.as_info() }.id())
+                .collect(),
+        )
+    }
+}
+
+#[cfg(evenio_verif)]
+impl HandlerInfoPtr {
+    pub(crate) fn verif_id(&self) -> HandlerId {
+        unsafe { self.as_info() }.id()
+    }
+}
+
+#[cfg(evenio_verif)]
+impl Handlers {
+    /// Global handler lists by global event index, and `by_insert_order`.
+    #[allow(clippy::type_complexity)]
+    pub(crate) fn verif_snapshot(
+        &self,
+    ) -> (
+        Vec<(u32, u32, Vec<HandlerId>)>,
+        Vec<(u64, HandlerId)>,
+        (Vec<(u32, Option<u32>)>, u32, u32),
+    ) {
+        (
+            self.by_global_event
+                .iter()
+                .map(HandlerList::verif_snapshot)
+                .collect(),
+            self.by_insert_order
+                .iter()
+                .map(|(&k, p)| (k, p.verif_id()))
+                .collect(),
+            self.infos.verif_raw(),
+        )
+    }
+}
